@@ -30,6 +30,8 @@ def run(ctx):
     ctx.rule("C15.5", "eviction only inside `while current_size > desired_size`, after the expired walk; evicts the least recently read name")
     ctx.rule("C15.6", "expired walk: an unexpired head is pushed back and ends the walk; retain keeps expiry > now; an emptied name leaves the map and both queues")
     ctx.rule("C15.7", "prune's report fields have the documented origins")
+    ctx.rule("C15.8", "the server publishes that report unconditionally: after every prune the size gauge is set to the remaining count and the expired / evicted counters are advanced by the reported numbers, on every path")
+    _report_published(ctx)
     ctx.decline("LRU order and counts along histories; termination of the prune loops is conditional on C15.2/C15.3")
 
     # ---------------------------------------------------------------- C15.1
@@ -360,6 +362,32 @@ def _tuples(u, ur):
             if A.peel(e[1][0]) == ("param", 4):
                 out.append((b, i, e[1][1]))
     return out
+
+
+def _report_published(ctx):
+    prog = ctx.prog
+    cands = [f for k, f in prog.fns.items() if any((t.get("resolved") or t.get("callee") or "") == "dns_resolver::cache::SharedCache::prune" for b, t in f.calls())
+             and k.startswith("resolved::") and not f.rec.get("coroutine")]
+    if len(cands) != 1:
+        raise A.mir.AnchorMissing("expected one function of the server calling SharedCache::prune, found %d" % len(cands))
+    f = cands[0]
+    r = A.Resolver(f)
+    rets = A.returns(f)
+    seen = {}
+    for b, t in f.calls():
+        n = (t.get("resolved") or t.get("callee") or "")
+        kind = "set" if n.startswith("prometheus::gauge::") and n.endswith("::set") else ("inc_by" if n.startswith("prometheus::counter::") and n.endswith("::inc_by") else None)
+        if kind is None:
+            continue
+        e = r.call_expr(t, b)
+        idx = [x[2] for x in A.walk(e[2][1]) if x[0] == "field" and A.peel(x[1])[0] == "call" and A.peel(x[1])[1] == "dns_resolver::cache::SharedCache::prune"]
+        if len(idx) != 1:
+            continue
+        on_all_paths = all(rb not in f.reachable(0, removed_blocks=[b]) for rb in rets)
+        seen[(kind, idx[0])] = on_all_paths
+    want = {("set", "1"), ("inc_by", "2"), ("inc_by", "3")}
+    ctx.check(set(seen) >= want and all(seen[k] for k in want), "C15.8", "report-published", "gauge.set(remaining), expired.inc_by(expired), evicted.inc_by(evicted) on every path",
+              "metric updates from the prune report: %s (True = on every path)" % {"%s(.%s)" % k: v for k, v in seen.items()}, f.loc())
 
 
 def _min_fold_over_all(fn, res, val):
